@@ -1269,7 +1269,9 @@ impl World {
             }
             _ => {}
         }
-        let must_reject = !matches!(k, BlockK::Valid | BlockK::FutureTs);
+        // TwoGt: Block::validate does not bound the number of golden tickets (the last one counts) and the
+        // block is accepted; UnknownParent: not rejected but parked / treated as an orphan (C05's business)
+        let must_reject = !matches!(k, BlockK::Valid | BlockK::FutureTs | BlockK::TwoGt | BlockK::UnknownParent(_));
         let bytes = block.serialize_for_net(BlockType::Full);
         Ok((block.hash, block.id, bytes, must_reject))
     }
@@ -1899,6 +1901,8 @@ async fn run_case(spec: &CaseSpec) -> CaseOut {
                         };
                         let txt: String = changed.join(" ;; ").chars().take(600).collect();
                         r.out.failures.push((pos, act.label(), id, format!("rejected input {} changed honest-visible state: {}", served_kind, txt)));
+                        // the state is no longer what an honest run would have: the case ends here
+                        break;
                     }
                 }
                 Err(m) => {
